@@ -1,10 +1,1171 @@
-//! `val-*` harness commands.
+//! `val-*` harness commands: validation paths (C12), `Dist::sample` (C13), `State::sample_state` (C06).
+//!
+//! Protocol (one block per case, see lean/Driver/ValRun.lean):
+//!   case <id> c12 <label>            case <id> c13 <label>              case <id> c06 <label>
+//!   m <bincode hex>                  d <bincode hex of Dist>            v <numstates> <target>:<f32 bits> ...
+//!   orc 0 0                          orc 0 0                            orc 0 0
+//!   paths <fp bits> <fb bits>        sample <prefix> <k> <seed>         words <w> ... | exhaustive | novec
+//!   o validate ok|err                o res ok|panic|hang                o w <word> <draw bits> <target|none> <u32 calls> <u64 calls>
+//!   o new ok|err                     o words <total> <kind:hex> ...     o counts <target>:<n> ... none:<n> drawbad:<n>
+//!   o fromstr ok|err|panic           o raw <f64 bits>
+//!   o fwnew ok|err|panic|hang        o ret <f64 bits>
+//!   end                              end                                end
 
+use crate::genm::machine_bytes;
+use crate::util::{hex, unhex, Prng, ScriptRng};
+use crate::vtime::VInstant;
+use enum_map::enum_map;
+use maybenot::action::Action;
+use maybenot::constants::{STATE_END, STATE_MAX, STATE_SIGNAL};
+use maybenot::counter::{Counter, Operation};
+use maybenot::dist::{Dist, DistType};
+use maybenot::event::Event;
+use maybenot::state::{State, Trans};
+use maybenot::{Framework, Machine, Timer};
 use std::io::Write;
+use std::panic::{catch_unwind, AssertUnwindSafe};
+use std::str::FromStr;
+use std::sync::mpsc;
+use std::time::Duration;
 
-/// Returns false if `sub` is not a command of this module.
-pub fn cmd(sub: &str, _args: &[String], _w: &mut dyn Write) -> bool {
+const EVENTS: [Event; 13] = [
+    Event::NormalRecv,
+    Event::PaddingRecv,
+    Event::TunnelRecv,
+    Event::NormalSent,
+    Event::PaddingSent,
+    Event::TunnelSent,
+    Event::BlockingBegin,
+    Event::BlockingEnd,
+    Event::LimitReached,
+    Event::CounterZero,
+    Event::TimerBegin,
+    Event::TimerEnd,
+    Event::Signal,
+];
+
+fn arg_val(args: &[String], name: &str) -> Option<String> {
+    args.iter().position(|a| a == name).and_then(|i| args.get(i + 1).cloned())
+}
+
+pub fn cmd(sub: &str, args: &[String], w: &mut dyn Write) -> bool {
+    let seed: u64 = arg_val(args, "--seed").and_then(|s| s.parse().ok()).unwrap_or(1);
+    let cases: u64 = arg_val(args, "--cases").and_then(|s| s.parse().ok()).unwrap_or(100);
     match sub {
+        "val-gen" => {
+            gen_c12(seed, cases, w);
+            true
+        }
+        "val-replay" => {
+            replay_c12(w);
+            true
+        }
+        "val-sample" => {
+            let wd: u64 = arg_val(args, "--watchdog-ms").and_then(|s| s.parse().ok()).unwrap_or(3000);
+            gen_c13(seed, cases, wd, w);
+            true
+        }
+        "val-sample-replay" => {
+            let wd: u64 = arg_val(args, "--watchdog-ms").and_then(|s| s.parse().ok()).unwrap_or(3000);
+            replay_c13(wd, w);
+            true
+        }
+        "val-sampstate" => {
+            let ex: u64 = arg_val(args, "--exhaustive").and_then(|s| s.parse().ok()).unwrap_or(3);
+            gen_c06(seed, cases, ex, w);
+            true
+        }
+        "val-sampstate-replay" => {
+            replay_c06(w);
+            true
+        }
         _ => false,
     }
 }
+
+// ---------------------------------------------------------------------------------------------
+// watchdog
+
+enum Outcome<T> {
+    Done(T),
+    Panic,
+    Hang,
+}
+
+/// Run `f` on its own thread; give up after `ms` milliseconds (the thread is left behind).
+fn with_watchdog<T: Send + 'static>(ms: u64, f: impl FnOnce() -> T + Send + 'static) -> Outcome<T> {
+    let (tx, rx) = mpsc::channel();
+    let _ = std::thread::Builder::new().stack_size(16 << 20).spawn(move || {
+        let r = catch_unwind(AssertUnwindSafe(f));
+        let _ = tx.send(r.ok());
+    });
+    match rx.recv_timeout(Duration::from_millis(ms)) {
+        Ok(Some(v)) => Outcome::Done(v),
+        Ok(None) => Outcome::Panic,
+        Err(_) => Outcome::Hang,
+    }
+}
+
+// ---------------------------------------------------------------------------------------------
+// C12: machine specifications, built through the public API or as crafted bincode
+
+#[derive(Clone)]
+struct SSpec {
+    action: Option<Action>,
+    ca: Option<Counter>,
+    cb: Option<Counter>,
+    /// one entry per event; `Some(vec![])` can only be expressed as crafted bytes
+    trans: Vec<Option<Vec<Trans>>>,
+}
+
+#[derive(Clone)]
+struct MSpec {
+    app: u64,
+    mpf: f64,
+    abm: u64,
+    mbf: f64,
+    states: Vec<SSpec>,
+}
+
+fn empty_state() -> SSpec {
+    SSpec { action: None, ca: None, cb: None, trans: vec![None; 13] }
+}
+
+fn state_with(ev: usize, v: Vec<Trans>) -> SSpec {
+    let mut s = empty_state();
+    s.trans[ev] = Some(v);
+    s
+}
+
+fn base_spec(states: Vec<SSpec>) -> MSpec {
+    MSpec { app: 0, mpf: 0.0, abm: 0, mbf: 0.0, states }
+}
+
+fn varint(out: &mut Vec<u8>, n: u64) {
+    if n < 251 {
+        out.push(n as u8);
+    } else if n < (1 << 16) {
+        out.push(251);
+        out.extend_from_slice(&(n as u16).to_le_bytes());
+    } else if n < (1 << 32) {
+        out.push(252);
+        out.extend_from_slice(&(n as u32).to_le_bytes());
+    } else {
+        out.push(253);
+        out.extend_from_slice(&n.to_le_bytes());
+    }
+}
+
+macro_rules! bc {
+    ($v:expr) => {{
+        use bincode::Options;
+        bincode::DefaultOptions::new().serialize($v).expect("bincode")
+    }};
+}
+
+/// bincode of the machine described by the spec, written by hand for the private parts
+fn craft_bytes(s: &MSpec) -> Vec<u8> {
+    let mut out = Vec::new();
+    varint(&mut out, s.app);
+    out.extend_from_slice(&s.mpf.to_bits().to_le_bytes());
+    varint(&mut out, s.abm);
+    out.extend_from_slice(&s.mbf.to_bits().to_le_bytes());
+    varint(&mut out, s.states.len() as u64);
+    for st in &s.states {
+        out.extend::<Vec<u8>>(bc!(&st.action));
+        out.extend::<Vec<u8>>(bc!(&st.ca));
+        out.extend::<Vec<u8>>(bc!(&st.cb));
+        for v in &st.trans {
+            match v {
+                None => out.push(0),
+                Some(ts) => {
+                    out.push(1);
+                    varint(&mut out, ts.len() as u64);
+                    for t in ts {
+                        varint(&mut out, t.0 as u64);
+                        out.extend_from_slice(&t.1.to_bits().to_le_bytes());
+                    }
+                }
+            }
+        }
+    }
+    out
+}
+
+fn has_empty_vec(s: &MSpec) -> bool {
+    s.states.iter().any(|st| st.trans.iter().any(|v| matches!(v, Some(x) if x.is_empty())))
+}
+
+/// the machine assembled through `State::new` and the public fields (no validation yet)
+fn build_public(s: &MSpec) -> Machine {
+    let mut states = Vec::new();
+    for st in &s.states {
+        let mut t = enum_map! { _ => vec![] };
+        for (i, v) in st.trans.iter().enumerate() {
+            if let Some(v) = v {
+                t[EVENTS[i]] = v.clone();
+            }
+        }
+        let mut x = State::new(t);
+        x.action = st.action;
+        x.counter = (st.ca, st.cb);
+        states.push(x);
+    }
+    Machine {
+        allowed_padding_packets: s.app,
+        max_padding_frac: s.mpf,
+        allowed_blocked_microsec: s.abm,
+        max_blocking_frac: s.mbf,
+        states,
+    }
+}
+
+fn machine_of_spec(s: &MSpec) -> Option<(Machine, &'static str)> {
+    use bincode::Options;
+    if has_empty_vec(s) {
+        let b = craft_bytes(s);
+        bincode::DefaultOptions::new().deserialize::<Machine>(&b).ok().map(|m| (m, "crafted"))
+    } else {
+        Some((build_public(s), "public"))
+    }
+}
+
+fn okerr<T, E>(r: &Result<T, E>) -> &'static str {
+    if r.is_ok() {
+        "ok"
+    } else {
+        "err"
+    }
+}
+
+/// run all construction paths on `m` and print the case
+fn emit_c12(w: &mut dyn Write, id: &str, label: &str, m: &Machine, crafted: Option<&[u8]>, fp: f64, fb: f64) {
+    let bytes = match catch_unwind(AssertUnwindSafe(|| machine_bytes(m))) {
+        Ok(b) => b,
+        Err(_) => return,
+    };
+    let _ = writeln!(w, "case {} c12 {}", id, label);
+    let _ = writeln!(w, "m {}", hex(&bytes));
+    let _ = writeln!(w, "orc 0 0");
+    let _ = writeln!(w, "paths {:016x} {:016x}", fp.to_bits(), fb.to_bits());
+    if let Some(c) = crafted {
+        let _ = writeln!(w, "o enc {}", if c == bytes.as_slice() { "ok" } else { "DIFF" });
+    }
+    // validate / new / from_str on a watchdog thread: a hang in any of them must be a result,
+    // not a stuck check
+    let mv = m.clone();
+    let by = bytes.clone();
+    let three = with_watchdog(5000, move || {
+        let v = catch_unwind(AssertUnwindSafe(|| mv.validate()));
+        let v = match &v { Ok(r) => okerr(r), Err(_) => "panic" };
+        let n = catch_unwind(AssertUnwindSafe(|| {
+            Machine::new(mv.allowed_padding_packets, mv.max_padding_frac, mv.allowed_blocked_microsec, mv.max_blocking_frac, mv.states.clone())
+        }));
+        let n = match &n { Ok(r) => okerr(r), Err(_) => "panic" };
+        let f = catch_unwind(AssertUnwindSafe(|| {
+            let s = mv.serialize();
+            Machine::from_str(&s).map(|m2| machine_bytes(&m2))
+        }));
+        let f = match &f {
+            Ok(Ok(b2)) => if *b2 == by { "ok" } else { "ok-differs" },
+            Ok(Err(_)) => "err",
+            Err(_) => "panic",
+        };
+        (v, n, f)
+    });
+    let (v, n, f) = match three {
+        Outcome::Done(x) => x,
+        Outcome::Panic => ("panic", "panic", "panic"),
+        Outcome::Hang => ("hang", "hang", "hang"),
+    };
+    let _ = writeln!(w, "o validate {}", v);
+    let _ = writeln!(w, "o new {}", n);
+    let _ = writeln!(w, "o fromstr {}", f);
+    if v == "hang" {
+        // Framework::new validates too; do not leave a second spinning thread behind
+        let _ = writeln!(w, "o fwnew hang");
+        let _ = writeln!(w, "end");
+        return;
+    }
+    let mc = m.clone();
+    let r = with_watchdog(5000, move || {
+        Framework::new(vec![mc], fp, fb, VInstant(0), ScriptRng::new(7, 0)).map(|_| ())
+    });
+    let _ = writeln!(
+        w,
+        "o fwnew {}",
+        match r {
+            Outcome::Done(Ok(())) => "ok",
+            Outcome::Done(Err(_)) => "err",
+            Outcome::Panic => "panic",
+            Outcome::Hang => "hang",
+        }
+    );
+    let _ = writeln!(w, "end");
+}
+
+fn emit_spec(w: &mut dyn Write, id: &str, label: &str, s: &MSpec) {
+    emit_spec_fw(w, id, label, s, 0.0, 0.0)
+}
+
+fn emit_spec_fw(w: &mut dyn Write, id: &str, label: &str, s: &MSpec, fp: f64, fb: f64) {
+    if let Some((m, how)) = machine_of_spec(s) {
+        let crafted = craft_bytes(s);
+        let lab = format!("{} {}", label, how);
+        // the hand-written encoder must agree with bincode whenever the machine is expressible
+        emit_c12(w, id, &lab, &m, if how == "public" { Some(&crafted) } else { None }, fp, fb);
+    }
+}
+
+pub const ADV64: &[u64] = &[
+    0x7ff8000000000000, // NaN
+    0x7ff0000000000001, // signalling NaN
+    0xfff8000000000000, // negative NaN
+    0x7ff0000000000000, // +inf
+    0xfff0000000000000, // -inf
+    0x8000000000000000, // -0
+    0x0000000000000000, // 0
+    0x0000000000000001, // smallest subnormal
+    0x8000000000000001, // -smallest subnormal
+    0x000fffffffffffff, // largest subnormal
+    0x0010000000000000, // smallest normal
+    0x3ff0000000000000, // 1
+    0x3ff0000000000001, // 1 + ulp
+    0x3fefffffffffffff, // 1 - ulp/2
+    0x3fe0000000000000, // 0.5
+    0x4000000000000000, // 2
+    0xbff0000000000000, // -1
+    0x7fefffffffffffff, // MAX
+    0xffefffffffffffff, // -MAX
+    0x3e112e0be826d695, // 1e-9 (DIST_MIN_PROBABILITY)
+    0x3e112e0be826d694, // 1e-9 - ulp
+    0x3e112e0be826d696, // 1e-9 + ulp
+    0x48a6f578c4e0a061, // 1e42
+    0x48a6f578c4e0a062, // 1e42 + ulp
+];
+
+pub const ADV32: &[u32] = &[
+    0x7fc00000, // NaN
+    0x7f800001, // signalling NaN
+    0xffc00000, // negative NaN
+    0x7f800000, // +inf
+    0xff800000, // -inf
+    0x80000000, // -0
+    0x00000000, // 0
+    0x00000001, // smallest subnormal
+    0x80000001, // -smallest subnormal
+    0x00800000, // smallest normal
+    0x3f800000, // 1
+    0x3f800001, // 1 + ulp
+    0x3f7fffff, // 1 - ulp/2
+    0x3f000000, // 0.5
+    0x40000000, // 2
+    0xbf800000, // -1
+    0x7f7fffff, // MAX
+    0x33800000, // 2^-24
+    0x34000000, // 2^-23
+];
+
+fn f(b: u64) -> f64 {
+    f64::from_bits(b)
+}
+
+fn konst(v: f64) -> Dist {
+    Dist { dist: DistType::Uniform { low: v, high: v }, start: 0.0, max: 0.0 }
+}
+
+/// all parameter corners of the eleven families: every parameter position takes every adversarial
+/// value while the others stay nominal, plus the documented bounds
+pub fn dist_corners() -> Vec<(String, DistType)> {
+    let mut v: Vec<(String, DistType)> = Vec::new();
+    let e42 = 1_000_000_000_000_000_000_000_000_000_000_000_000_000_000.0f64;
+    for &b in ADV64 {
+        let x = f(b);
+        let t = format!("{:016x}", b);
+        v.push((format!("uniform-low-{t}"), DistType::Uniform { low: x, high: 10.0 }));
+        v.push((format!("uniform-high-{t}"), DistType::Uniform { low: -10.0, high: x }));
+        v.push((format!("uniform-both-{t}"), DistType::Uniform { low: x, high: x }));
+        v.push((format!("normal-mean-{t}"), DistType::Normal { mean: x, stdev: 1.0 }));
+        v.push((format!("normal-stdev-{t}"), DistType::Normal { mean: 0.0, stdev: x }));
+        v.push((format!("skewnormal-location-{t}"), DistType::SkewNormal { location: x, scale: 1.0, shape: 1.0 }));
+        v.push((format!("skewnormal-scale-{t}"), DistType::SkewNormal { location: 0.0, scale: x, shape: 1.0 }));
+        v.push((format!("skewnormal-shape-{t}"), DistType::SkewNormal { location: 0.0, scale: 1.0, shape: x }));
+        v.push((format!("lognormal-mu-{t}"), DistType::LogNormal { mu: x, sigma: 1.0 }));
+        v.push((format!("lognormal-sigma-{t}"), DistType::LogNormal { mu: 0.0, sigma: x }));
+        v.push((format!("binomial-p-{t}"), DistType::Binomial { trials: 10, probability: x }));
+        v.push((format!("geometric-p-{t}"), DistType::Geometric { probability: x }));
+        v.push((format!("pareto-scale-{t}"), DistType::Pareto { scale: x, shape: 1.0 }));
+        v.push((format!("pareto-shape-{t}"), DistType::Pareto { scale: 1.0, shape: x }));
+        v.push((format!("poisson-lambda-{t}"), DistType::Poisson { lambda: x }));
+        v.push((format!("weibull-scale-{t}"), DistType::Weibull { scale: x, shape: 1.0 }));
+        v.push((format!("weibull-shape-{t}"), DistType::Weibull { scale: 1.0, shape: x }));
+        v.push((format!("gamma-scale-{t}"), DistType::Gamma { scale: x, shape: 2.0 }));
+        v.push((format!("gamma-shape-{t}"), DistType::Gamma { scale: 1.0, shape: x }));
+        v.push((format!("gamma1-scale-{t}"), DistType::Gamma { scale: x, shape: 1.0 }));
+        v.push((format!("beta-alpha-{t}"), DistType::Beta { alpha: x, beta: 1.0 }));
+        v.push((format!("beta-beta-{t}"), DistType::Beta { alpha: 1.0, beta: x }));
+    }
+    let next_up = |x: f64| f64::from_bits(x.to_bits() + 1);
+    let next_down = |x: f64| f64::from_bits(x.to_bits() - 1);
+    for (n, t) in [(0u64, "0"), (1, "1"), (1_000_000_000, "1e9"), (1_000_000_001, "1e9+1"), (u64::MAX, "max")] {
+        for (p, pt) in [(0.0, "0"), (1e-9, "min"), (0.5, "half"), (1.0, "1"), (0.6666666666666666, "2/3")] {
+            v.push((format!("binomial-trials-{t}-p-{pt}"), DistType::Binomial { trials: n, probability: p }));
+        }
+    }
+    v.push(("poisson-1e42".into(), DistType::Poisson { lambda: e42 }));
+    v.push(("poisson-1e42-up".into(), DistType::Poisson { lambda: next_up(e42) }));
+    v.push(("poisson-1e42-down".into(), DistType::Poisson { lambda: next_down(e42) }));
+    v.push(("poisson-12".into(), DistType::Poisson { lambda: 12.0 }));
+    v.push(("poisson-12-down".into(), DistType::Poisson { lambda: next_down(12.0) }));
+    v.push(("uniform-range-overflow".into(), DistType::Uniform { low: -f64::MAX, high: f64::MAX }));
+    v.push(("uniform-range-max".into(), DistType::Uniform { low: -f64::MAX / 2.0, high: f64::MAX / 2.0 }));
+    v.push(("uniform-range-just-overflow".into(), DistType::Uniform { low: -f64::MAX / 2.0, high: next_up(f64::MAX / 2.0) }));
+    v.push(("uniform-0-max".into(), DistType::Uniform { low: 0.0, high: f64::MAX }));
+    v.push(("uniform-one-ulp".into(), DistType::Uniform { low: 1.0, high: next_up(1.0) }));
+    v.push(("uniform-top-ulp".into(), DistType::Uniform { low: next_down(f64::MAX), high: f64::MAX }));
+    v.push(("uniform-subnormal".into(), DistType::Uniform { low: 0.0, high: 5e-324 }));
+    v.push(("uniform-inverted".into(), DistType::Uniform { low: 2.0, high: 1.0 }));
+    v.push(("uniform-unit".into(), DistType::Uniform { low: 0.0, high: 1.0 }));
+    v.push(("gamma-shape-below-1".into(), DistType::Gamma { scale: 1.0, shape: next_down(1.0) }));
+    v.push(("gamma-shape-above-1".into(), DistType::Gamma { scale: 1.0, shape: next_up(1.0) }));
+    v.push(("geometric-2/3".into(), DistType::Geometric { probability: 2.0 / 3.0 }));
+    v.push(("geometric-below-2/3".into(), DistType::Geometric { probability: next_down(2.0 / 3.0) }));
+    v
+}
+
+fn machine_with_dist(d: Dist, pos: u64) -> MSpec {
+    let mut s = empty_state();
+    s.trans[0] = Some(vec![Trans(0, 1.0)]);
+    let one = konst(1.0);
+    match pos % 8 {
+        0 => s.action = Some(Action::SendPadding { bypass: false, replace: false, timeout: d, limit: None }),
+        1 => s.action = Some(Action::SendPadding { bypass: true, replace: false, timeout: one, limit: Some(d) }),
+        2 => s.action = Some(Action::BlockOutgoing { bypass: false, replace: true, timeout: d, duration: one, limit: None }),
+        3 => s.action = Some(Action::BlockOutgoing { bypass: false, replace: false, timeout: one, duration: d, limit: None }),
+        4 => s.action = Some(Action::BlockOutgoing { bypass: true, replace: true, timeout: one, duration: one, limit: Some(d) }),
+        5 => s.action = Some(Action::UpdateTimer { replace: false, duration: d, limit: None }),
+        6 => s.ca = Some(Counter { operation: Operation::Increment, dist: Some(d), copy: false }),
+        _ => s.cb = Some(Counter { operation: Operation::Set, dist: Some(d), copy: true }),
+    }
+    base_spec(vec![s])
+}
+
+fn gen_c12(seed: u64, cases: u64, w: &mut dyn Write) {
+    let mut n = 0u64;
+    let mut id = |label: &str| {
+        n += 1;
+        format!("c12-{}-{}-{}", seed, n, label.split(' ').next().unwrap_or(""))
+    };
+    let tr1 = |t: usize, p: f32| vec![Trans(t, p)];
+    // --- machine fractions
+    for &b in ADV64 {
+        let mut s = base_spec(vec![state_with(0, tr1(0, 1.0))]);
+        s.mpf = f(b);
+        let l = format!("frac-padding-{:016x}", b);
+        emit_spec(w, &id(&l), &l, &s);
+        let mut s = base_spec(vec![state_with(0, tr1(0, 1.0))]);
+        s.mbf = f(b);
+        let l = format!("frac-blocking-{:016x}", b);
+        emit_spec(w, &id(&l), &l, &s);
+        // framework-level fractions on a valid machine
+        let s = base_spec(vec![state_with(0, tr1(0, 1.0))]);
+        let l = format!("fw-frac-padding-{:016x}", b);
+        emit_spec_fw(w, &id(&l), &l, &s, f(b), 0.0);
+        let l = format!("fw-frac-blocking-{:016x}", b);
+        emit_spec_fw(w, &id(&l), &l, &s, 0.5, f(b));
+    }
+    // --- transition probabilities, on every event slot in turn
+    for (i, &b) in ADV32.iter().enumerate() {
+        let p = f32::from_bits(b);
+        let s = base_spec(vec![state_with(i % 13, tr1(0, p))]);
+        let l = format!("prob-single-{:08x}", b);
+        emit_spec(w, &id(&l), &l, &s);
+        let s = base_spec(vec![state_with((i + 5) % 13, vec![Trans(0, 0.25), Trans(STATE_END, p)]), empty_state()]);
+        let l = format!("prob-second-{:08x}", b);
+        emit_spec(w, &id(&l), &l, &s);
+        let s = base_spec(vec![state_with((i + 7) % 13, vec![Trans(1, p), Trans(0, 0.25)]), empty_state()]);
+        let l = format!("prob-first-{:08x}", b);
+        emit_spec(w, &id(&l), &l, &s);
+    }
+    // --- sums
+    let sums: Vec<(&str, Vec<f32>)> = vec![
+        ("sum-half-half", vec![0.5, 0.5]),
+        ("sum-just-above", vec![0.5, 0.50000006]),
+        ("sum-rounds-to-one", vec![0.99999994, 5.9604645e-8]),
+        ("sum-one-plus-denormal", vec![1.0, 1e-45]),
+        ("sum-thirds", vec![0.33333334, 0.33333334, 0.33333334]),
+        ("sum-thirds-over", vec![0.33333334, 0.33333334, 0.33333337]),
+        ("sum-tiny", vec![1e-45, 1e-45]),
+        ("sum-two-ones", vec![1.0, 1.0]),
+        ("sum-one-and-ulp", vec![1.0, 5.9604645e-8]),
+        ("sum-one-and-2ulp", vec![1.0, 1.1920929e-7]),
+        ("sum-inf-minus-inf", vec![f32::INFINITY, f32::NEG_INFINITY]),
+        ("sum-nan-first", vec![f32::NAN, 0.5]),
+        ("sum-nan-last", vec![0.5, f32::NAN]),
+        ("sum-four-quarters", vec![0.25, 0.25, 0.25, 0.25]),
+        ("sum-five-quarters", vec![0.25, 0.25, 0.25, 0.25, 0.25]),
+    ];
+    for (l, ps) in &sums {
+        let mut states = vec![empty_state(); ps.len().max(1)];
+        states[0].trans[3] = Some(ps.iter().enumerate().map(|(i, p)| Trans(i, *p)).collect());
+        emit_spec(w, &id(l), l, &base_spec(states));
+    }
+    // --- targets
+    let targets: Vec<(&str, usize, Vec<usize>)> = vec![
+        ("target-self", 1, vec![0]),
+        ("target-n", 1, vec![1]),
+        ("target-n-of-3", 3, vec![3]),
+        ("target-last", 3, vec![2]),
+        ("target-end", 1, vec![STATE_END]),
+        ("target-signal", 1, vec![STATE_SIGNAL]),
+        ("target-state-max", 1, vec![STATE_MAX]),
+        ("target-end-plus-1", 1, vec![STATE_END + 1]),
+        ("target-usize-max", 1, vec![usize::MAX]),
+        ("target-dup", 2, vec![0, 0]),
+        ("target-dup-end", 2, vec![STATE_END, STATE_END]),
+        ("target-dup-signal", 2, vec![STATE_SIGNAL, 1, STATE_SIGNAL]),
+        ("target-dup-far", 3, vec![1, 2, 0, 1]),
+        ("target-all-kinds", 2, vec![0, 1, STATE_END, STATE_SIGNAL]),
+    ];
+    for (l, ns, ts) in &targets {
+        let mut states = vec![empty_state(); *ns];
+        states[ns - 1].trans[12] = Some(ts.iter().map(|t| Trans(*t, 0.125)).collect());
+        emit_spec(w, &id(l), l, &base_spec(states));
+    }
+    // --- state lists and empty vectors
+    emit_spec(w, &id("states-none"), "states-none", &base_spec(vec![]));
+    emit_spec(w, &id("states-bare"), "states-bare", &base_spec(vec![empty_state()]));
+    for ev in [0usize, 6, 12] {
+        let l = format!("empty-vector-{}", ev);
+        emit_spec(w, &id(&l), &l, &base_spec(vec![state_with(ev, vec![])]));
+    }
+    {
+        let mut s = state_with(2, vec![]);
+        s.trans[4] = Some(tr1(0, 1.0));
+        emit_spec(w, &id("empty-vector-and-valid"), "empty-vector-and-valid", &base_spec(vec![s]));
+    }
+    // --- distribution parameter corners, rotated through every position a Dist can occupy
+    for (i, (l, dt)) in dist_corners().into_iter().enumerate() {
+        let d = Dist { dist: dt, start: 0.0, max: 0.0 };
+        let l = format!("dist-{}", l);
+        emit_spec(w, &id(&l), &l, &machine_with_dist(d, i as u64));
+    }
+    // start / max are unconstrained by validation
+    for (i, &b) in ADV64.iter().enumerate() {
+        let d = Dist { dist: DistType::Uniform { low: 1.0, high: 2.0 }, start: f(b), max: f(ADV64[(i * 7 + 3) % ADV64.len()]) };
+        let l = format!("dist-start-max-{:016x}", b);
+        emit_spec(w, &id(&l), &l, &machine_with_dist(d, i as u64));
+    }
+    // --- random combinations
+    let mut p = Prng::new(seed ^ 0xc12);
+    let corners = dist_corners();
+    for _ in 0..cases {
+        let ns = p.range(1, 3) as usize;
+        let mut states = Vec::new();
+        for _ in 0..ns {
+            let mut s = empty_state();
+            for ev in 0..13 {
+                if !p.chance(1, 4) {
+                    continue;
+                }
+                let k = p.range(0, 3) as usize;
+                let mut v = Vec::new();
+                for _ in 0..k {
+                    let t = match p.below(10) {
+                        0 => STATE_END,
+                        1 => STATE_SIGNAL,
+                        2 => ns,
+                        3 => *p.pick(&[STATE_MAX, STATE_END + 1, usize::MAX]),
+                        _ => p.below(ns as u64) as usize,
+                    };
+                    let pr = if p.chance(1, 5) {
+                        f32::from_bits(*p.pick(ADV32))
+                    } else {
+                        *p.pick(&[1.0f32, 0.5, 0.25, 0.125, 0.3, 0.33333334, 0.1, 0.0625])
+                    };
+                    v.push(Trans(t, pr));
+                }
+                s.trans[ev] = Some(v);
+            }
+            if p.chance(1, 2) {
+                let (_, dt) = p.pick(&corners).clone();
+                let d = Dist { dist: dt, start: f(*p.pick(ADV64)), max: f(*p.pick(ADV64)) };
+                let m = machine_with_dist(d, p.next());
+                s.action = m.states[0].action;
+                s.ca = m.states[0].ca;
+                s.cb = m.states[0].cb;
+            }
+            states.push(s);
+        }
+        let mut spec = base_spec(states);
+        if p.chance(1, 6) {
+            spec.mpf = f(*p.pick(ADV64));
+        }
+        if p.chance(1, 6) {
+            spec.mbf = f(*p.pick(ADV64));
+        }
+        spec.app = *p.pick(&[0, 1, u64::MAX]);
+        spec.abm = *p.pick(&[0, 1000, u64::MAX]);
+        let (fp, fb) = if p.chance(1, 8) { (f(*p.pick(ADV64)), f(*p.pick(ADV64))) } else { (0.0, 1.0) };
+        emit_spec_fw(w, &id("random"), "random", &spec, fp, fb);
+    }
+}
+
+/// stdin: protocol text; every `m <hex>` machine (bincode) is re-run through all paths
+fn replay_c12(w: &mut dyn Write) {
+    use bincode::Options;
+    let mut text = String::new();
+    let _ = std::io::Read::read_to_string(&mut std::io::stdin(), &mut text);
+    let mut id = String::from("replay");
+    let mut label = String::from("replay");
+    let mut fp = 0.0f64;
+    let mut fb = 0.0f64;
+    let mut pending: Option<Machine> = None;
+    let flush = |w: &mut dyn Write, id: &str, label: &str, m: &mut Option<Machine>, fp: f64, fb: f64| {
+        if let Some(m) = m.take() {
+            emit_c12(w, id, label, &m, None, fp, fb);
+        }
+    };
+    for line in text.lines() {
+        let ws: Vec<&str> = line.split_whitespace().collect();
+        match ws.as_slice() {
+            ["case", i, "c12", rest @ ..] => {
+                flush(w, &id, &label, &mut pending, fp, fb);
+                id = i.to_string();
+                label = rest.join(" ");
+                fp = 0.0;
+                fb = 0.0;
+            }
+            ["m", h] => {
+                flush(w, &id, &label, &mut pending, fp, fb);
+                if let Some(b) = unhex(h) {
+                    pending = bincode::DefaultOptions::new().deserialize::<Machine>(&b).ok();
+                }
+            }
+            ["paths", a, b] => {
+                fp = u64::from_str_radix(a, 16).map(f64::from_bits).unwrap_or(0.0);
+                fb = u64::from_str_radix(b, 16).map(f64::from_bits).unwrap_or(0.0);
+            }
+            _ => {}
+        }
+    }
+    flush(w, &id, &label, &mut pending, fp, fb);
+}
+
+// ---------------------------------------------------------------------------------------------
+// C13: Dist::sample under scripted RNG prefixes
+
+/// scripted prefix followed by a fair stream; logs every word it hands out
+struct LogRng {
+    prefix: Vec<u64>,
+    pos: usize,
+    fair: Prng,
+    log: Vec<(u8, u64)>,
+    total: u64,
+}
+
+impl LogRng {
+    fn word(&mut self) -> u64 {
+        if self.pos < self.prefix.len() {
+            self.pos += 1;
+            self.prefix[self.pos - 1]
+        } else {
+            self.fair.next()
+        }
+    }
+    fn note(&mut self, kind: u8, w: u64) {
+        self.total += 1;
+        if self.log.len() < 160 {
+            self.log.push((kind, w));
+        }
+    }
+}
+
+impl rand_core::RngCore for LogRng {
+    fn next_u32(&mut self) -> u32 {
+        let w = (self.word() >> 32) as u32;
+        self.note(32, w as u64);
+        w
+    }
+    fn next_u64(&mut self) -> u64 {
+        let w = self.word();
+        self.note(64, w);
+        w
+    }
+    fn fill_bytes(&mut self, dest: &mut [u8]) {
+        rand_core::impls::fill_bytes_via_next(self, dest)
+    }
+    fn try_fill_bytes(&mut self, dest: &mut [u8]) -> Result<(), rand_core::Error> {
+        self.fill_bytes(dest);
+        Ok(())
+    }
+}
+
+fn prefix_words(kind: &str, k: usize) -> Vec<u64> {
+    match kind {
+        "zeros" => vec![0; k],
+        "ones" => vec![u64::MAX; k],
+        "alt" => (0..k).map(|i| if i % 2 == 0 { 0 } else { u64::MAX }).collect(),
+        "alt2" => (0..k).map(|i| if i % 2 == 0 { 0xaaaa_aaaa_aaaa_aaaa } else { 0x5555_5555_5555_5555 }).collect(),
+        "top" => vec![0xffff_ffff_ffff_f000; k],
+        "low" => vec![0x0000_0000_0000_0fff; k],
+        other => match other.strip_prefix("hex:").and_then(|h| u64::from_str_radix(h, 16).ok()) {
+            Some(x) => vec![x; k],
+            None => vec![],
+        },
+    }
+}
+
+fn emit_c13(w: &mut dyn Write, id: &str, label: &str, d: Dist, pk: &str, k: usize, seed: u64, wd: u64) {
+    let _ = writeln!(w, "case {} c13 {}", id, label);
+    let _ = writeln!(w, "d {}", hex(&{ let b: Vec<u8> = bc!(&d); b }));
+    let _ = writeln!(w, "orc 0 0");
+    let _ = writeln!(w, "sample {} {} {}", pk, k, seed);
+    let prefix = prefix_words(pk, k);
+    // validation and sampling both run on the watchdog thread: `Dist::validate` calls the
+    // rand_distr constructors, which contain loops of their own
+    let r = with_watchdog(wd, move || {
+        if d.validate().is_err() {
+            return None;
+        }
+        maybenot::verif::enable(true);
+        let _ = maybenot::verif::take();
+        let mut rng = LogRng { prefix, pos: 0, fair: Prng::new(seed), log: vec![], total: 0 };
+        let r = catch_unwind(AssertUnwindSafe(|| d.sample(&mut rng)));
+        let log = maybenot::verif::take();
+        maybenot::verif::enable(false);
+        Some((r.ok(), log, rng.log, rng.total))
+    });
+    let r = match r {
+        Outcome::Done(None) => {
+            // the property is about validated distributions only
+            let _ = writeln!(w, "o validate err");
+            let _ = writeln!(w, "o res skipped");
+            let _ = writeln!(w, "end");
+            return;
+        }
+        Outcome::Done(Some(x)) => {
+            let _ = writeln!(w, "o validate ok");
+            Outcome::Done(x)
+        }
+        Outcome::Panic => {
+            let _ = writeln!(w, "o validate ok");
+            Outcome::Panic
+        }
+        Outcome::Hang => {
+            let _ = writeln!(w, "o validate ok");
+            Outcome::Hang
+        }
+    };
+    match r {
+        Outcome::Done((ret, log, words, total)) => {
+            let _ = writeln!(w, "o res {}", if ret.is_some() { "ok" } else { "panic" });
+            let ws: Vec<String> = words.iter().map(|(k, x)| format!("{}:{:x}", k, x)).collect();
+            let _ = writeln!(w, "o words {} {}", total, ws.join(" "));
+            for e in &log {
+                if let maybenot::verif::Entry::DistRaw { bits } = e {
+                    let _ = writeln!(w, "o raw {:016x}", bits);
+                }
+            }
+            if let Some(x) = ret {
+                let _ = writeln!(w, "o ret {:016x}", x.to_bits());
+            }
+        }
+        Outcome::Panic => {
+            let _ = writeln!(w, "o res panic");
+        }
+        Outcome::Hang => {
+            let _ = writeln!(w, "o res hang");
+        }
+    }
+    let _ = writeln!(w, "end");
+}
+
+const STARTS: &[u64] = &[
+    0, 0, 0, 0x7ff8000000000000, 0x7ff0000000000000, 0xfff0000000000000, 0xfe37e43c8800759c, /* -1e300 */
+    0x4014000000000000, /* 5 */ 0x7fefffffffffffff, 0xc000000000000000, /* -2 */ 0x8000000000000000,
+];
+const MAXES: &[u64] = &[
+    0, 0, 0, 0x7ff8000000000000, 0x7ff0000000000000, 0xfff0000000000000, 0x0000000000000001,
+    0x408f400000000000, /* 1000 */ 0xbff0000000000000, /* -1 */ 0x7fefffffffffffff, 0x3fd3333333333333, /* 0.3 */
+];
+const PREFIXES: &[(&str, usize)] = &[
+    ("none", 0), ("zeros", 1), ("zeros", 4), ("zeros", 64), ("ones", 1), ("ones", 4), ("ones", 64),
+    ("alt", 2), ("alt", 9), ("alt2", 8), ("top", 3), ("low", 3),
+];
+
+fn gen_c13(seed: u64, rounds: u64, wd: u64, w: &mut dyn Write) {
+    let mut p = Prng::new(seed ^ 0xc13);
+    // keep the corners validation admits; a validation that does not return is kept too, so that
+    // it is reported as a hang by `emit_c13` instead of stalling the generator
+    let corners: Vec<(String, DistType)> = dist_corners()
+        .into_iter()
+        .filter(|(_, dt)| {
+            let d = Dist { dist: *dt, start: 0.0, max: 0.0 };
+            !matches!(with_watchdog(wd, move || d.validate().is_ok()), Outcome::Done(false))
+        })
+        .collect();
+    let mut n = 0u64;
+    for round in 0..rounds {
+        for (l, dt) in &corners {
+            n += 1;
+            // first round: plain clamp parameters with every prefix in rotation; later rounds: random
+            let (start, max, (pk, k)) = if round == 0 {
+                (0.0, 0.0, PREFIXES[(n as usize) % PREFIXES.len()])
+            } else {
+                (f(*p.pick(STARTS)), f(*p.pick(MAXES)), *p.pick(PREFIXES))
+            };
+            let d = Dist { dist: *dt, start, max };
+            let id = format!("c13-{}-{}", seed, n);
+            emit_c13(w, &id, l, d, pk, k, p.next(), wd);
+            // the retry loop of `gen_range` is modelled word by word: give it every prefix once
+            if round == 0 {
+                if let DistType::Uniform { low, high } = dt {
+                    if low != high {
+                        for (pk, k) in PREFIXES {
+                            n += 1;
+                            let id = format!("c13-{}-{}", seed, n);
+                            emit_c13(w, &id, l, d, pk, *k, p.next(), wd);
+                        }
+                    }
+                }
+            }
+        }
+    }
+}
+
+fn replay_c13(wd: u64, w: &mut dyn Write) {
+    use bincode::Options;
+    let mut text = String::new();
+    let _ = std::io::Read::read_to_string(&mut std::io::stdin(), &mut text);
+    let mut id = String::from("replay");
+    let mut label = String::from("replay");
+    let mut d: Option<Dist> = None;
+    for line in text.lines() {
+        let ws: Vec<&str> = line.split_whitespace().collect();
+        match ws.as_slice() {
+            ["case", i, "c13", rest @ ..] => {
+                id = i.to_string();
+                label = rest.join(" ");
+                d = None;
+            }
+            ["d", h] => {
+                d = unhex(h).and_then(|b| bincode::DefaultOptions::new().deserialize::<Dist>(&b).ok());
+            }
+            ["sample", pk, k, seed] => {
+                if let (Some(d), Ok(k), Ok(seed)) = (d, k.parse::<usize>(), seed.parse::<u64>()) {
+                    emit_c13(w, &id, &label, d, pk, k, seed, wd);
+                }
+            }
+            _ => {}
+        }
+    }
+}
+
+// ---------------------------------------------------------------------------------------------
+// C06: State::sample_state under a counting RNG
+
+/// hands out one fixed 32-bit word and counts the calls
+struct WordRng {
+    w: u32,
+    n32: u32,
+    n64: u32,
+}
+
+impl rand_core::RngCore for WordRng {
+    fn next_u32(&mut self) -> u32 {
+        self.n32 += 1;
+        self.w
+    }
+    fn next_u64(&mut self) -> u64 {
+        self.n64 += 1;
+        ((self.w as u64) << 32) | self.w as u64
+    }
+    fn fill_bytes(&mut self, dest: &mut [u8]) {
+        rand_core::impls::fill_bytes_via_next(self, dest)
+    }
+    fn try_fill_bytes(&mut self, dest: &mut [u8]) -> Result<(), rand_core::Error> {
+        self.fill_bytes(dest);
+        Ok(())
+    }
+}
+
+fn vec_line(ns: usize, v: &[Trans]) -> String {
+    let ts: Vec<String> = v.iter().map(|t| format!("{}:{:08x}", t.0, t.1.to_bits())).collect();
+    format!("v {} {}", ns, ts.join(" "))
+}
+
+fn parse_vec_line(ws: &[&str]) -> Option<(usize, Vec<Trans>)> {
+    let ns = ws.get(1)?.parse::<usize>().ok()?;
+    let mut v = Vec::new();
+    for x in &ws[2..] {
+        let (a, b) = x.split_once(':')?;
+        v.push(Trans(a.parse::<usize>().ok()?, f32::from_bits(u32::from_str_radix(b, 16).ok()?)));
+    }
+    Some((ns, v))
+}
+
+/// the state carrying `v` on NormalSent (and nothing on the other events), inside a validated machine
+fn state_for(ns: usize, v: &[Trans]) -> Option<State> {
+    let mut t = enum_map! { _ => vec![] };
+    t[Event::NormalSent] = v.to_vec();
+    let st = State::new(t);
+    let mut states = vec![st.clone()];
+    for _ in 1..ns {
+        states.push(State::new(enum_map! { _ => vec![] }));
+    }
+    Machine::new(0, 0.0, 0, 0.0, states).ok().map(|_| st)
+}
+
+fn draw_once(st: &State, ev: Event, word: u32) -> (Option<u32>, Option<usize>, u32, u32) {
+    maybenot::verif::enable(true);
+    let _ = maybenot::verif::take();
+    let mut rng = WordRng { w: word, n32: 0, n64: 0 };
+    let r = st.sample_state(ev, &mut rng);
+    let log = maybenot::verif::take();
+    let bits = log.iter().find_map(|e| if let maybenot::verif::Entry::Draw { bits } = e { Some(*bits) } else { None });
+    (bits, r, rng.n32, rng.n64)
+}
+
+fn target_str(t: Option<usize>) -> String {
+    match t {
+        Some(x) => x.to_string(),
+        None => "none".into(),
+    }
+}
+
+fn emit_c06_words(w: &mut dyn Write, id: &str, label: &str, ns: usize, v: &[Trans], words: &[u32]) {
+    let Some(st) = state_for(ns, v) else { return };
+    let _ = writeln!(w, "case {} c06 {}", id, label);
+    let _ = writeln!(w, "{}", vec_line(ns, v));
+    let _ = writeln!(w, "orc 0 0");
+    let ws: Vec<String> = words.iter().map(|x| format!("{:08x}", x)).collect();
+    let _ = writeln!(w, "words {}", ws.join(" "));
+    for &word in words {
+        let (bits, r, n32, n64) = draw_once(&st, Event::NormalSent, word);
+        let _ = writeln!(w, "o w {:08x} {} {} {} {}", word, bits.map(|b| format!("{:08x}", b)).unwrap_or("-".into()), target_str(r), n32, n64);
+    }
+    // an event without a vector: no draw, no transition
+    let (bits, r, n32, n64) = draw_once(&st, Event::Signal, 0);
+    let _ = writeln!(w, "o novec {} {} {} {}", bits.map(|b| format!("{:08x}", b)).unwrap_or("-".into()), target_str(r), n32, n64);
+    let _ = writeln!(w, "end");
+    maybenot::verif::enable(false);
+}
+
+fn emit_c06_exhaustive(w: &mut dyn Write, id: &str, label: &str, ns: usize, v: &[Trans]) {
+    let Some(st) = state_for(ns, v) else { return };
+    let _ = writeln!(w, "case {} c06 {}", id, label);
+    let _ = writeln!(w, "{}", vec_line(ns, v));
+    let _ = writeln!(w, "orc 0 0");
+    let _ = writeln!(w, "exhaustive");
+    maybenot::verif::enable(true);
+    let _ = maybenot::verif::take();
+    let mut counts: Vec<u64> = vec![0; v.len()];
+    let mut none = 0u64;
+    let mut other = 0u64;
+    let mut drawbad = 0u64;
+    let mut callsbad = 0u64;
+    for k in 0u32..(1 << 23) {
+        // all 2^23 outcomes; the nine discarded low bits carry garbage derived from k
+        let word = (k << 9) | (k.wrapping_mul(0x9E37_79B1) >> 23);
+        let mut rng = WordRng { w: word, n32: 0, n64: 0 };
+        let r = st.sample_state(Event::NormalSent, &mut rng);
+        if rng.n32 != 1 || rng.n64 != 0 {
+            callsbad += 1;
+        }
+        let log = maybenot::verif::take();
+        let expect = (k as f32) / 8388608.0;
+        match log.first() {
+            Some(maybenot::verif::Entry::Draw { bits }) if *bits == expect.to_bits() => {}
+            _ => drawbad += 1,
+        }
+        match r {
+            None => none += 1,
+            Some(t) => match v.iter().position(|x| x.0 == t) {
+                Some(i) => counts[i] += 1,
+                None => other += 1,
+            },
+        }
+    }
+    maybenot::verif::enable(false);
+    let cs: Vec<String> = v.iter().zip(counts.iter()).map(|(t, c)| format!("{}:{}", t.0, c)).collect();
+    let _ = writeln!(w, "o counts {} none:{} other:{} drawbad:{} callsbad:{}", cs.join(" "), none, other, drawbad, callsbad);
+    let _ = writeln!(w, "end");
+}
+
+/// running f32 sums as `sample_state` computes them
+fn thresholds(v: &[Trans]) -> Vec<f32> {
+    let mut sum: f32 = 0.0;
+    v.iter()
+        .map(|t| {
+            sum += t.1;
+            sum
+        })
+        .collect()
+}
+
+fn boundary_words(p: &mut Prng, v: &[Trans]) -> Vec<u32> {
+    let mut ks: Vec<u32> = vec![0, 1, (1 << 23) - 1, (1 << 22), (1 << 22) - 1];
+    for c in thresholds(v) {
+        let x = (c as f64) * 8388608.0;
+        let k = x.ceil();
+        for d in [-2.0, -1.0, 0.0, 1.0] {
+            let y = k + d;
+            if y >= 0.0 && y < 8388608.0 {
+                ks.push(y as u32);
+            }
+        }
+    }
+    for _ in 0..6 {
+        ks.push(p.below(1 << 23) as u32);
+    }
+    ks.sort();
+    ks.dedup();
+    ks.iter()
+        .map(|k| {
+            let low = match p.below(3) {
+                0 => 0,
+                1 => 0x1ff,
+                _ => p.below(512) as u32,
+            };
+            (k << 9) | low
+        })
+        .collect()
+}
+
+const PROBS: &[u32] = &[
+    0x3f800000, // 1
+    0x3f7fffff, // 1 - 2^-24
+    0x3f000000, // 0.5
+    0x3e800000, // 0.25
+    0x3e000000, // 0.125
+    0x3e99999a, // 0.3
+    0x3eaaaaab, // 1/3
+    0x3dcccccd, // 0.1
+    0x34000000, // 2^-23
+    0x33800000, // 2^-24
+    0x33000000, // 2^-25
+    0x00000001, // smallest subnormal
+    0x00800000, // smallest normal
+    0x3089705f, // 1e-9
+    0x3f7ffffe, // 1 - 2^-23
+    0x3f400000, // 0.75
+    0x3c23d70a, // 0.01
+];
+
+fn gen_vector(p: &mut Prng) -> (usize, Vec<Trans>) {
+    let ns = p.range(1, 6) as usize;
+    let mut targets: Vec<usize> = (0..ns).collect();
+    targets.push(STATE_END);
+    targets.push(STATE_SIGNAL);
+    for i in (1..targets.len()).rev() {
+        let j = p.below(i as u64 + 1) as usize;
+        targets.swap(i, j);
+    }
+    let k = (p.range(1, 6) as usize).min(targets.len());
+    let mut v: Vec<Trans> = Vec::new();
+    let mut sum: f32 = 0.0;
+    for t in targets.iter().take(k) {
+        let pr = if p.chance(1, 3) {
+            // random f32 in (0, 1]
+            let x = ((p.below(1 << 24) + 1) as f32) / 16777216.0;
+            x / (k as f32)
+        } else {
+            f32::from_bits(*p.pick(PROBS))
+        };
+        if pr > 0.0 && sum + pr <= 1.0 {
+            sum += pr;
+            v.push(Trans(*t, pr));
+        }
+    }
+    if v.is_empty() {
+        v.push(Trans(targets[0], 1.0));
+    }
+    // sometimes top the vector up to a sum of exactly 1
+    if p.chance(1, 3) && v.len() < targets.len() {
+        let rest = 1.0 - sum;
+        if rest > 0.0 && sum + rest <= 1.0 {
+            v.push(Trans(targets[v.len()], rest));
+        }
+    }
+    (ns, v)
+}
+
+fn fixed_vectors() -> Vec<(&'static str, usize, Vec<Trans>)> {
+    vec![
+        ("one", 1, vec![Trans(0, 1.0)]),
+        ("one-end", 1, vec![Trans(STATE_END, 1.0)]),
+        ("one-signal", 1, vec![Trans(STATE_SIGNAL, 1.0)]),
+        ("halves", 2, vec![Trans(1, 0.5), Trans(0, 0.5)]),
+        ("thirds", 3, vec![Trans(2, 0.33333334), Trans(0, 0.33333334), Trans(1, 0.33333334)]),
+        ("tenths", 3, vec![Trans(0, 0.1), Trans(STATE_END, 0.2), Trans(2, 0.3), Trans(STATE_SIGNAL, 0.1)]),
+        ("tiny", 1, vec![Trans(0, f32::from_bits(1))]),
+        ("resolution", 2, vec![Trans(0, 1.1920929e-7), Trans(1, 5.9604645e-8)]),
+        ("below-resolution", 2, vec![Trans(1, 2.9802322e-8), Trans(0, 0.5)]),
+        ("almost-one", 2, vec![Trans(0, 0.99999994), Trans(1, 5.9604645e-8)]),
+        ("absorbed", 2, vec![Trans(0, 0.75), Trans(1, 1e-9), Trans(STATE_END, 0.25)]),
+        ("eighty", 1, vec![Trans(0, 0.8)]),
+    ]
+}
+
+fn gen_c06(seed: u64, cases: u64, exhaustive: u64, w: &mut dyn Write) {
+    let mut p = Prng::new(seed ^ 0xc06);
+    let mut n = 0u64;
+    for (l, ns, v) in fixed_vectors() {
+        n += 1;
+        let words = boundary_words(&mut p, &v);
+        emit_c06_words(w, &format!("c06-{}-{}", seed, n), l, ns, &v, &words);
+    }
+    for _ in 0..cases {
+        n += 1;
+        let (ns, v) = gen_vector(&mut p);
+        let words = boundary_words(&mut p, &v);
+        emit_c06_words(w, &format!("c06-{}-{}", seed, n), "random", ns, &v, &words);
+    }
+    let fixed = fixed_vectors();
+    for i in 0..exhaustive {
+        n += 1;
+        if (i as usize) < fixed.len() {
+            // rotate through the fixed vectors starting from a seed-dependent position
+            let (l, ns, v) = &fixed[((seed + i) as usize) % fixed.len()];
+            emit_c06_exhaustive(w, &format!("c06-{}-{}", seed, n), &format!("exhaustive-{}", l), *ns, v);
+        } else {
+            let (ns, v) = gen_vector(&mut p);
+            emit_c06_exhaustive(w, &format!("c06-{}-{}", seed, n), "exhaustive-random", ns, &v);
+        }
+    }
+}
+
+fn replay_c06(w: &mut dyn Write) {
+    let mut text = String::new();
+    let _ = std::io::Read::read_to_string(&mut std::io::stdin(), &mut text);
+    let mut id = String::from("replay");
+    let mut label = String::from("replay");
+    let mut vec: Option<(usize, Vec<Trans>)> = None;
+    for line in text.lines() {
+        let ws: Vec<&str> = line.split_whitespace().collect();
+        match ws.as_slice() {
+            ["case", i, "c06", rest @ ..] => {
+                id = i.to_string();
+                label = rest.join(" ");
+                vec = None;
+            }
+            ["v", ..] => vec = parse_vec_line(&ws),
+            ["words", rest @ ..] => {
+                if let Some((ns, v)) = &vec {
+                    let words: Vec<u32> = rest.iter().filter_map(|x| u32::from_str_radix(x, 16).ok()).collect();
+                    emit_c06_words(w, &id, &label, *ns, v, &words);
+                }
+            }
+            ["exhaustive"] => {
+                if let Some((ns, v)) = &vec {
+                    emit_c06_exhaustive(w, &id, &label, *ns, v);
+                }
+            }
+            _ => {}
+        }
+    }
+}
+
+#[allow(dead_code)]
+fn _unused(_: Timer) {}
